@@ -602,10 +602,75 @@ def crack(ctx):
     return ctx.pmap(_crack_shard, shard_round_robin(params[ctx.seed % stride::stride], 64))
 
 
+# ------------------------------------------------------------------------------------------------ held-key signers
+def _signer_shard(arg):
+    names, seed = arg
+    from btclib.curves import CURVES, secp256k1
+    from btclib.ecc import dsa
+
+    st = Stats()
+    errs = lib_errors()
+    for name in names:
+        ec = CURVES[name]
+        p, a, n, G = ec.p, ec._a, ec.n, ec.G
+        for serving in ((True, False) if ec == secp256k1 else (False,)):
+            with backend(serving):
+                for hfname in ("sha1", "sha256", "sha512", "sha3_256", "blake2s", "sha224"):
+                    hf = getattr(hashlib, hfname)
+                    for q in (1, n - 1, int.from_bytes(hashlib.sha512(b"sg%d" % seed).digest(), "big") % n or 1):
+                        case0 = {"curve": name, "hf": hfname, "q": hex(q)[:14], "bindings": serving}
+                        try:
+                            signer = dsa.Signer(q, ec, hf)
+                        except errs as e:
+                            st.outcomes[("signer-refused", hfname)] += 1
+                            continue
+                        Q = R.mul(q, G, p, a)
+                        for msg in (b"", b"sample", b"x" * 70):
+                            mh = hf(msg).digest()
+                            c = bits2int(mh, ec.nlen) % n
+                            k, _ = rfc6979_ref(q, mh, n, hfname)
+                            exp = sign_ref(q, c, k, n, G, p, a, True)
+                            for spelling in ("sign", "sign_"):
+                                st.evals += 1
+                                if hfname != "sha256":
+                                    st.nontrivial += 1
+                                case = dict(case0, msg_len=len(msg), spelling=spelling)
+                                try:
+                                    der = signer.sign(msg, grind=False) if spelling == "sign" else signer.sign_(mh, grind=False)
+                                    sig = dsa.Sig.parse(der) if ec == secp256k1 else None
+                                except errs as e:
+                                    st.violation("C02/signer/refuses-to-sign/" + spelling, case, repr(e)[:80], "a signature")
+                                    continue
+                                if sig is not None and (sig.r, sig.s) != exp:
+                                    st.violation("C02/signer/not-rfc6979-ecdsa/" + spelling, case, (hex(sig.r)[:14], hex(sig.s)[:14]), (hex(exp[0])[:14], hex(exp[1])[:14]))
+                                # the free functions give the same octets and accept them
+                                try:
+                                    free = dsa.sign(msg, q, None, True, ec, hf, grind=False) if spelling == "sign" else dsa.sign_(mh, q, None, True, ec, hf, grind=False)
+                                    if free.serialize() != der:
+                                        st.violation("C02/signer/differs-from-free-function/" + spelling, case, der.hex()[:24], free.serialize().hex()[:24])
+                                    ok = dsa.verify(msg, Q, free, hf) if spelling == "sign" else dsa.verify_(mh, Q, free, hf)
+                                    if ok is not True:
+                                        st.violation("C02/signer/own-signature-rejected/" + spelling, case, ok, True)
+                                except errs as e:
+                                    st.violation("C02/signer/free-function-refuses/" + spelling, case, repr(e)[:80], "a signature")
+                        signer.wipe()
+    return st
+
+
+def held_key_signers(ctx):
+    from btclib.curves import CURVES
+
+    names = sorted(CURVES)
+    if ctx.quick:
+        names = [nm for nm in names if nm in ("secp256k1", "secp256r1", "secp160r1", "secp112r2", "secp521r1", "brainpoolP256r1", "nistp192", "secp192k1")] or names[:6]
+    return ctx.pmap(_signer_shard, [([nm], ctx.seed) for nm in names])
+
+
 SUBS = [
     ("toy", toy),
     ("public_api", public_api),
     ("catalogue", catalogue),
     ("der", der),
     ("crack", crack),
+    ("held_key_signers", held_key_signers),
 ]
